@@ -45,10 +45,12 @@ pub fn check_order_free(w: &mut World, actor: &str, before: &Psbt, after: &Psbt,
     }
     if finals(&one) != finals(after) {
         let which: Vec<usize> = (0..n).filter(|i| finals(&one)[*i] != finals(after)[*i]).collect();
-        raise(
+        let cls = if cross_input_key_origins(before) { "I5-single:cross-input-key-origins" } else { "I5-single" };
+        crate::monitors::raise_class(
             w,
             "C14",
             "I5-single",
+            cls.to_string(),
             format!("finalising inputs one by one with finalize_inp{}_mut gives a different result than finalize{}_mut for inputs {:?}", if mall { "_mall" } else { "" }, if mall { "_mall" } else { "" }, which),
             actor,
         );
@@ -145,6 +147,14 @@ fn xonly_of(w: &World, id: usize) -> bitcoin::secp256k1::XOnlyPublicKey { w.env.
 
 /// I7: after the updater ran on input `i`, the recorded fields must be consistent with the
 /// descriptor's output. `subset` = Plan::update_psbt_input (only what the plan needs).
+/// The situation in which the finalizer's cross-input key table matters: an unfinalised input
+/// without key-origin fields next to another input that has them.
+pub fn cross_input_key_origins(p: &Psbt) -> bool {
+    let has = |i: &bitcoin::psbt::Input| !i.bip32_derivation.is_empty() || !i.tap_key_origins.is_empty();
+    let fin = |i: &bitcoin::psbt::Input| i.final_script_sig.is_some() || i.final_script_witness.is_some();
+    p.inputs.iter().any(|i| !has(i) && !fin(i)) && p.inputs.iter().any(|i| has(i))
+}
+
 pub fn check_updater(w: &mut World, psbt: &Psbt, i: usize, before: &bitcoin::psbt::Input, subset: bool) {
     let env = w.env.clone();
     let ic = &env.inputs[i];
